@@ -128,6 +128,17 @@ def _symx_lru_cache(maxsize=128, typed=False):
     return deco
 
 
+def _register_late_module(module):
+    """modules of pyModeS imported after load_repo (uplink, extra.*): their module-level containers are state too"""
+    if _loaded is not None:
+        for k, v in list(vars(module).items()):
+            if not k.startswith("__"):
+                _register_container(v, 0)
+
+
+POST_EXEC.append(_register_late_module)
+
+
 def _snapshot_now():
     return [(obj, type(obj)(obj)) for obj, _ in _MODSTATE]
 
@@ -166,6 +177,33 @@ def _restore_module_state():
                 obj.update(pristine)
 
 
+_REAL_LRU = []
+
+
+def _install_lru_dispatch():
+    """functools.lru_cache / functools.cache: functions defined in pyModeS get the resettable ==-comparing memo,
+    everything else (z3, numpy, the standard library) keeps the real implementation"""
+    import functools
+    if _REAL_LRU:
+        return
+    real_lru, real_cache = functools.lru_cache, getattr(functools, "cache", None)
+    _REAL_LRU.append(real_lru)
+
+    def is_ours(fn):
+        return callable(fn) and str(getattr(fn, "__module__", "")).startswith("pyModeS")
+
+    def lru_cache(maxsize=128, typed=False):
+        if callable(maxsize) and not isinstance(maxsize, int):
+            return _symx_lru_cache(maxsize) if is_ours(maxsize) else real_lru(maxsize)
+
+        def deco(fn):
+            return _symx_lru_cache(maxsize, typed)(fn) if is_ours(fn) else real_lru(maxsize, typed)(fn)
+        return deco
+    functools.lru_cache = lru_cache
+    if real_cache is not None:
+        functools.cache = lambda fn: _symx_lru_cache(None)(fn) if is_ours(fn) else real_cache(fn)
+
+
 def load_repo(src=None, force=False):
     """import pyModeS from the current source with patched namespaces; py_common is forced."""
     global _loaded
@@ -186,17 +224,8 @@ def load_repo(src=None, force=False):
             sys.modules[stub] = m
     sys.meta_path[:] = [f for f in sys.meta_path if not isinstance(f, _Finder)]
     sys.meta_path.insert(0, _Finder(src))
-    import functools
-    _real_lru, _real_cache = functools.lru_cache, getattr(functools, "cache", None)
-    functools.lru_cache = _symx_lru_cache
-    if _real_cache is not None:
-        functools.cache = _symx_lru_cache(None)
-    try:
-        import pyModeS
-    finally:
-        functools.lru_cache = _real_lru
-        if _real_cache is not None:
-            functools.cache = _real_cache
+    _install_lru_dispatch()      # stays installed: pyModeS modules imported later (uplink, extra) must get the model too
+    import pyModeS
     assert pyModeS.common.__name__ == "pyModeS.py_common", pyModeS.common.__name__
     assert pyModeS.__file__.startswith(src), pyModeS.__file__
     from . import stubs
